@@ -36,6 +36,7 @@ type Conf struct {
 	Identifiers  map[string]string // algorithm name (any case) or decimal number -> identifier
 	ValiditySec  uint64
 	OmitValidity bool
+	KeyLabel     string // "key_label" of the handler configuration (omitted when empty)
 }
 
 // GensignConfig builds the real configuration object from JSON text, as the binary does.
@@ -43,6 +44,9 @@ func GensignConfig(c Conf) (*config.GensignConfig, string, error) {
 	h := map[string]any{"enable": true, "pub_key_dir": c.PubKeyDir, "key_identifiers": c.Identifiers}
 	if !c.OmitValidity {
 		h["cert_validity_sec"] = c.ValiditySec
+	}
+	if c.KeyLabel != "" {
+		h["key_label"] = c.KeyLabel
 	}
 	doc := map[string]any{"handlers": map[string]any{regular.HandlerName: h}}
 	b, err := json.Marshal(doc)
@@ -109,7 +113,7 @@ type Signer struct {
 	Calls    []*SignReq
 	NCerts   int      // certificates per request (default 1)
 	Comments []string // comments returned (any length)
-	// Fault: call index -> "error" | "panic"
+	// Fault: call index -> "error" | "panic" | "other-key" (the last certificate of the reply is issued for a key other than the requested one, no error)
 	Fault map[int]string
 	Agent *wire.Agent
 	// NonCert adds a plain public key to the reply
@@ -117,6 +121,10 @@ type Signer struct {
 	// Scribble: after keeping its own copy, the signer edits the request it was handed (as a CA client
 	// wrapper may do): later requests must not be affected
 	Scribble bool
+	// CtxAware: like a real CA client, a call whose context is already done fails with the context's error
+	CtxAware bool
+	// After is called with the call index just before a successful reply is returned
+	After func(idx int)
 }
 
 func (s *Signer) Sign(ctx context.Context, req *proto.SSHCertificateSigningRequest) ([]ssh.PublicKey, []string, error) {
@@ -144,6 +152,10 @@ func (s *Signer) Sign(ctx context.Context, req *proto.SSHCertificateSigningReque
 	}
 	comments := append([]string{}, s.Comments...)
 	s.mu.Unlock()
+	if s.CtxAware && ctx.Err() != nil {
+		rec.Err = fmt.Errorf("CA unreachable: %w", ctx.Err())
+		return nil, nil, rec.Err
+	}
 	switch fault {
 	case "error":
 		rec.Err = fmt.Errorf("scripted CA failure")
@@ -159,7 +171,16 @@ func (s *Signer) Sign(ctx context.Context, req *proto.SSHCertificateSigningReque
 	now := uint64(time.Now().Unix())
 	var out []ssh.PublicKey
 	for i := 0; i < n; i++ {
-		c := &ssh.Certificate{Key: pk, Serial: uint64(idx*10 + i), CertType: ssh.UserCert, KeyId: req.KeyId, ValidPrincipals: req.Principals,
+		ck := pk
+		if fault == "other-key" && i == n-1 {
+			for _, k := range gen.Pool() {
+				if string(k.Pub.Marshal()) != string(pk.Marshal()) {
+					ck = k.Pub
+					break
+				}
+			}
+		}
+		c := &ssh.Certificate{Key: ck, Serial: uint64(idx*10 + i), CertType: ssh.UserCert, KeyId: req.KeyId, ValidPrincipals: req.Principals,
 			ValidAfter: now - 60, ValidBefore: now + req.Validity, Permissions: ssh.Permissions{Extensions: req.Extensions}}
 		if i%2 == 1 {
 			c.Permissions.CriticalOptions = map[string]string{"touchless-sudo-hosts": "h"}
@@ -174,6 +195,9 @@ func (s *Signer) Sign(ctx context.Context, req *proto.SSHCertificateSigningReque
 		out = append(out, pk)
 	}
 	rec.Certs = out
+	if s.After != nil {
+		s.After(idx)
+	}
 	return out, comments, nil
 }
 
@@ -250,6 +274,13 @@ func (r *Rig) Close() { r.Conn.Close() }
 
 // Run calls gensign.Run and converts an escaping panic into (nil, panicText).
 func Run(param *csr.ReqParam, handlers []gensign.Handler, signer csr.Signer) (err error, escaped string) {
+	ctx, cancel := context.WithTimeout(context.Background(), 30*time.Second)
+	defer cancel()
+	return RunCtx(ctx, param, handlers, signer)
+}
+
+// RunCtx is Run with the caller's request context.
+func RunCtx(ctx context.Context, param *csr.ReqParam, handlers []gensign.Handler, signer csr.Signer) (err error, escaped string) {
 	type res struct {
 		err     error
 		escaped string
@@ -261,8 +292,6 @@ func Run(param *csr.ReqParam, handlers []gensign.Handler, signer csr.Signer) (er
 				ch <- res{nil, fmt.Sprint(p)}
 			}
 		}()
-		ctx, cancel := context.WithTimeout(context.Background(), 30*time.Second)
-		defer cancel()
 		ch <- res{gensign.Run(ctx, param, handlers, signer), ""}
 	}()
 	select {
